@@ -651,7 +651,7 @@ def fn_quotedQualifierParser : List Line := [
   (1, "return", "func0")   -- quotedValue
 ]
 
-/-- `quotedQualifierParser/func0` — `GenBank.quotedValue`, `GenBank.stripCont` (the loop; also regenerated as a FUNCTION: Gts/Gen/GbReaderFns.lean) -/
+/-- `quotedQualifierParser/func0` — `GenBank.quotedValue`, `GenBank.stripCont` / `stripLoop` (the one-pass loop of 2612fae; also regenerated as a FUNCTION: Gts/Gen/GbReaderFns.lean) -/
 def fn_quotedQualifierParser_func0 : List Line := [
   (0, "func", "(state *pars.State, result *pars.Result) error"),
   (1, "state", "state.Push()"),   -- quotedValue: `push`
@@ -669,12 +669,13 @@ def fn_quotedQualifierParser_func0 : List Line := [
   (1, "state", "state.Drop()"),   -- quotedValue: `drop`
   (1, "parse", "pars.EOL(state, pars.Void)"),   -- quotedValue: `let _ ← attempt eol` (its failure is ignored)
   (1, "assign", "v3 := result.Token"),   -- quotedValue: `tok`
-  (1, "assign", "v4 := bytes.Index(v3, append([]byte{'\\n'}, []byte(s0)...))"),   -- stripCont: `findSub (10 :: pre) t 0` (`bytes.Index`)
-  (1, "for", "v4 >= 0"),   -- stripCont: `| some i =>` / `| none => t`
-  (2, "assign", "v5 := copy(v3[v4 + 1:], v3[v4 + len(append([]byte{'\\n'}, []byte(s0)...)):])"),   -- stripCont: `t.take (i + 1) ++ t.drop (i + 1 + pre.length)` (the copy moves the tail over the indent …)
-  (2, "assign", "v3 = v3[:v4 + 1 + v5]"),   -- stripCont: (… and the slice cuts the token to its new length)
-  (2, "assign", "v4 = bytes.Index(v3, append([]byte{'\\n'}, []byte(s0)...))"),   -- stripCont: the search restarts at the beginning
-  (1, "result", "result.SetToken(v3)"),   -- quotedValue: `pure (stripCont pre tok.length tok)`
+  (1, "assign", "v4 := 0"),   -- stripCont: `stripLoop … [] t` (`w`: `acc`, the value so far, is empty)
+  (1, "for", "v5 := 0; v5 < len(v3); v5++"),   -- stripLoop: the recursion over the bytes of the token (`r`: `| acc, c :: t =>`, `| acc, [] => acc.reverse`)
+  (2, "assign", "v3[v4] = v3[v5]"),   -- stripLoop: `c :: acc` (the byte is moved behind the value so far …)
+  (2, "assign", "v4++"),   -- stripLoop: (… which is one byte longer)
+  (2, "if", "bytes.HasSuffix(v3[:v4], append([]byte{'\\n'}, []byte(s0)...))"),   -- stripLoop: `if rp.isPrefixOf (c :: acc)` (`rp` = `"\n" ++ prefix` reversed, `acc` = `token[:w]` reversed)
+  (3, "assign", "v4 -= len(s0)"),   -- stripLoop: `(c :: acc).drop k` (`k` = `len(prefix)`: the indent is cut off, the line feed stays)
+  (1, "result", "result.SetToken(v3[:v4])"),   -- quotedValue: `pure (stripCont pre tok)`
   (1, "return", "nil")   -- quotedValue: `pure …`
 ]
 
